@@ -142,7 +142,7 @@ class C15(Check):
     world = 'twin'
     level = 'exploration'
     design_ref = 'DESIGN.md 3.9'
-    runs = {'quick': 1500, 'thorough': 40000}
+    runs = {'quick': 1200, 'thorough': 40000}
     shrink_lists = (('ops',), ('config', 'stack'))
     hashseeds = {'quick': [1], 'thorough': [1, 2]}
     rule = ('a scenario application producing every response kind (Response small/large/compressible/random/empty/streamed, '
@@ -162,7 +162,7 @@ class C15(Check):
                   'stub': ['clock (stats + cookie seams)', 'random.random, os.urandom', 'client + WSGI server']}
     level_text = 'Lock-step differential simulation of client histories against a reference twin; sampled.'
     level_note = 'Trusted: the bare application as the reference; gzip.decompress.'
-    required_probes = ('concurrent-batch', 'gzip-compressed', 'gzip-not-accepted-identity', 'error-through-stack', 'null-route-through-stack',
+    required_probes = ('long-history', 'concurrent-batch', 'gzip-compressed', 'gzip-not-accepted-identity', 'error-through-stack', 'null-route-through-stack',
                        'head-through-gzip', 'clock-jump-within-request', 'mw-gzip', 'mw-stats', 'mw-cookie', 'mw-cache')
 
     def generate(self, seed, tier):
@@ -197,6 +197,24 @@ class C15(Check):
                             'granularity': gran, 'order': order,
                             'preempts': sorted([sch.randint(1, hi), sch.choice(['demote'] + names_t)] for _ in range(sch.randint(1, 8)))})
         return {'world': 'twin', 'seed': seed, 'config': {'stack': stack}, 'ops': ops}
+
+    def extra_plans(self, tier, base_seed):
+        """One long-lived application: a route is hit until its sample store is full (2**14), then requests
+        whose random draws sit on the boundaries of the store's index buckets."""
+        cap = 2 ** 14
+        stacks = [['stats']] if tier == 'quick' else [['stats'], ['gzip', 'stats', 'cache'], ['cookie', 'stats', 'profile', 'scriptroot']]
+        for stack in stacks:
+            ops = [{'repeat': cap, 'path': '/ok', 'method': 'GET', 'ae': 4}]
+            k = 0
+            for j in (cap - 2, cap - 1, cap, cap + 1, cap + 2, 0, 1):
+                for d in (0, 1, 2):
+                    for half in (0.0, 0.5, 0.999):
+                        k += 1
+                        total = cap + k
+                        r = min(1.0 - 2 ** -53, max(0.0, (j + half) / float(total + d)))
+                        ops.append({'path': '/ok', 'method': 'GET', 'ae': 4, 'dt': 0, 'jitter': [], 'draws': [r, r, r]})
+            ops.append({'path': '/x404', 'method': 'GET', 'ae': 4, 'dt': 0, 'jitter': [], 'draws': []})
+            yield {'world': 'twin', 'seed': base_seed, 'config': {'stack': stack}, 'ops': ops, 'long_history': True}
 
     def execute(self, plan):
         res = RunResult()
@@ -302,6 +320,24 @@ class C15(Check):
                 return make_environ(op['method'], op['path'], headers=hdr, body=body)
 
             for step, op in enumerate(plan['ops']):
+                if 'repeat' in op:
+                    ae, accepts = AES[op['ae']]
+                    e1 = call_app(bare, request_env(op, c1), validate=False)
+                    bad = None
+                    for n in range(op['repeat']):
+                        e2 = call_app(full, request_env(op, c2), validate=False)
+                        if e2.escaped is not None or e2.code != e1.code or e2.body != e1.body:
+                            bad = (n, e2)
+                            break
+                    res.probe('long-history')
+                    res.ev(step, 'repeat', op['repeat'], op['path'], '->', e1.code, 'deviation', bad[0] if bad else None)
+                    if bad:
+                        res.violate(K + 'status-changed:%s-to-%s%s' % (e1.code, bad[1].code, self.culprit(bad[1])),
+                                    'request #%d of %d identical %s %s: bare %s, with middlewares %s %r\n%s'
+                                    % (bad[0] + 1, op['repeat'], op['method'], op['path'], e1.status, bad[1].status, bad[1].escaped,
+                                       bad[1].body[:400].decode('utf8', 'replace')), step)
+                        break
+                    continue
                 if 'batch' in op:
                     # several clients at once on the application WITH the middlewares; the twin serves them one by one
                     reqs = op['batch']
